@@ -253,6 +253,40 @@ def scripted_peer(v):
     return n
 
 
+def retry_vectors(v, vec):
+    """Negotiate.tla RetryGroupOk: an IKE_SA_INIT answered with INVALID_KE_PAYLOAD naming group g is retried with g iff g is a DH transform of the offer."""
+    n = 0
+    for c in vec['retry']:
+        cfg = ike_cfg(c['offer'])
+        w = wd.World(seed=common.SEED, opts=cfg)
+        try:
+            req = bytes(w.acquire('A'))
+            m = W.dec_message(req)
+            first = next(p for p in m['payloads'] if p['t'] == W.KE)['group']
+            if c['g'] == first:
+                continue                     # the group already used: not a suggestion a responder makes
+            forged = W.enc_message({'spi_i': m['spi_i'], 'spi_r': b'\0' * 8, 'xchg': 34, 'response': True, 'initiator': False, 'mid': 0},
+                                   [{'t': W.NOTIFY, 'proto': 0, 'spi': b'', 'ntype': 17, 'data': struct.pack('>H', c['g'])}])
+            try:
+                out = w.dispatch('A', forged, 'B')
+            except wd.Escape as ex:
+                v.violation(f'INVALID_KE_PAYLOAD suggesting group {c["g"]}: {ex}', {'offer': cfg}, signature={'component': 'retry:escape'})
+                continue
+            n += 1
+            group = None
+            if out is not None and W.dec_header(bytes(out))['xchg'] == 34:
+                group = next((p['group'] for p in W.dec_message(bytes(out))['payloads'] if p['t'] == W.KE), None)
+            if c['ok'] and group != c['g']:
+                v.violation(f'INVALID_KE_PAYLOAD suggesting the offered group {c["g"]} is not followed (retry group {group})', {'offer': cfg},
+                            signature={'component': 'retry:not-followed'})
+            if not c['ok'] and out is not None and group is not None:
+                v.violation(f'INVALID_KE_PAYLOAD suggesting group {c["g"]}, which is not among the offered DH groups {cfg["ike_dh"]}, is followed (retry with group {group})',
+                            {'offer': cfg}, signature={'component': 'retry:unoffered', 'group': c['g']})
+        finally:
+            w.close()
+    return n
+
+
 def run(tier, replay=None):
     v = common.Verdict('C11', tier, 'model_checking')
     rnd = random.Random(common.SEED)
@@ -260,13 +294,14 @@ def run(tier, replay=None):
     n_fun, n_cls = function_level(v, vec, tier, rnd)
     n_e2e = end_to_end(v, vec, tier, rnd)
     n_scr = scripted_peer(v)
+    n_retry = retry_vectors(v, vec)
     sample = vec['select'][0]
-    v.coverage.update({'evaluations': n_fun + n_e2e + n_scr, 'distinct_nontrivial': n_fun, 'spec_cases': len(vec['select']),
+    v.coverage.update({'evaluations': n_fun + n_e2e + n_scr + n_retry, 'retry_suggestions': n_retry, 'distinct_nontrivial': n_fun, 'spec_cases': len(vec['select']),
                        'function_level': n_fun, 'classes': n_cls, 'end_to_end_pairs': n_e2e, 'scripted_peer_cases': n_scr,
                        'rule': 'Negotiate.tla universe: IKE local policies (ordered ENCR key lengths, INTEG, DH lists) x peer SA payloads with one or two proposals '
                                'incl. foreign / missing / key-length-mismatching transforms; ESP / AH child policies likewise; property ChoiceOk checked by TLC on '
                                'all cases, each case then compared with Proposal.intersection / is_subset / _select_best_sa_proposal; end to end: pairs of connection '
-                               'configurations; scripted peer answers with extra / foreign transforms and never-offered groups',
+                               'configurations; scripted peer answers with extra / foreign transforms and never-offered groups; RetryGroupOk: every group number 0..31 suggested by INVALID_KE_PAYLOAD against offers whose other transform types use the same numbers',
                        'samples': [{'mine': sample['mine'], 'peer_sa': sample['sa'], 'expected': sample['out']}], 'exhaustive': tier == 'thorough'})
     v.assumptions += ['order of the transforms inside the chosen proposal is not compared (not fixed by the property)']
     return v.finish()
